@@ -501,3 +501,10 @@ M('c09-unbalanced-template', 'C09', [(DI, "        'Size': 'COALESCE(ARRAY_LENGT
 M('c09-unclosed-quote', 'C09', [(DI, "      return 'JSON_EXTRACT(%s, \"$.%s\")' % (record, subscript)", "      return 'JSON_EXTRACT(%s, \"$.%s)' % (record, subscript)")], 'C09-R3')
 M('c09-cast-paren', 'C09', [(ET, "      return \"CAST([%s], 'Array(%s)')\" % (internals, element_type_name)", "      return \"CAST([%s], 'Array(%s))\" % (internals, element_type_name)")], 'C09-R3')
 T('c09-twin-fragment-refactor', 'C09', [(ET, "          result = self.Infix(sql_op, arguments)\n          result = '(' + result + ')'\n          return result", "          return '(%s)' % self.Infix(sql_op, arguments)")])
+M('c01-inject-drops-constraints', 'C01', [(U, "  target.constraints.extend(source.constraints)\n", "")], 'C01-R5')
+M('c01-inject-drops-unnestings', 'C01', [(U, "  target.unnestings.extend(source.unnestings)\n", "")], 'C01-R5')
+M('c01-dnf-zip', 'C01', [(PA, "    for a in first_dnf:\n      for b in cls.ConjunctionOfDnfs(other_dnfs):\n        result.append(a + b)", "    for a, b in zip(first_dnf, cls.ConjunctionOfDnfs(other_dnfs)):\n      result.append(a + b)")], 'C01-R5')
+M('c01-where-or', 'C01', [(RT, "          r += ' AND\\n'.join(map(Indent2, constraints))", "          r += ' OR\\n'.join(map(Indent2, constraints))")], 'C01-R5')
+M('c01-constraint-skipped', 'C01', [(RT, "        ephemeral_predicates = ['~']", "        ephemeral_predicates = ['~', 'IsNull']")], 'C01-R5')
+M('c01-shared-alternatives', 'C01', [(PA, "      new_rule = copy.deepcopy(rule)\n      new_rule['body'] = {'conjunction': {'conjunct': copy.deepcopy(conjuncts)}}", "      new_rule = dict(rule)\n      new_rule['body'] = {'conjunction': {'conjunct': conjuncts}}")], 'C01-R5')
+T('c01-twin-inject-order', 'C01', [(U, "  target.unnestings.extend(source.unnestings)\n  target.constraints.extend(source.constraints)", "  target.constraints.extend(source.constraints)\n  target.unnestings.extend(source.unnestings)")])
